@@ -8,12 +8,14 @@ import (
 
 	"vharness/internal/abs"
 	"vharness/internal/dirsrc"
+	"vharness/internal/jrn"
 )
 
 func init() { drivers["dirsrc"] = dirsrcDriver }
 
 func dirsrcDriver(args []string) (*Summary, error) {
 	fl := newFlags("dirsrc")
+	longRun := fl.fs.Int("longrun", 0, "also run a directory with a run of that many bad entries under a limit of 64 open files")
 	fl.fs.Parse(args)
 	w, err := abs.NewWriter(*fl.out)
 	if err != nil {
@@ -67,6 +69,24 @@ func dirsrcDriver(args []string) (*Summary, error) {
 	})
 	if err != nil {
 		return nil, err
+	}
+	if *longRun > 0 {
+		c := dirsrc.LongBadRun(*longRun)
+		id := fmt.Sprintf("long-bad-run-%d", *longRun)
+		inputs.Write(map[string]any{"case": id, "input": map[string]any{"long_bad_run": *longRun, "open_file_limit": 64}})
+		var crashes []jrn.Crash
+		var rerr error
+		if err := dirsrc.WithOpenFileLimit(64, func() { crashes, rerr = dirsrc.Run(id, c, scratch, w) }); err != nil {
+			return nil, fmt.Errorf("cannot lower the open file limit: %v", err)
+		}
+		if rerr != nil {
+			return nil, rerr
+		}
+		for _, cr := range crashes {
+			s.Crashes = append(s.Crashes, cr)
+		}
+		s.Cases++
+		s.Counters["long_bad_runs"]++
 	}
 	s.Records = w.N
 	return s, w.Close()
